@@ -55,8 +55,8 @@ def plan(tier):
     return {
         "sweeps": sweeps,
         "exhaustive": "all pruned per-attempt reaction scripts over {covering ACK, stale ACK, NAK, silence, ERROR, RSTACK}^k (k<=5) for one send, with 0 and 2 queued sends, at the four uniform reaction timings",
-        "random": [("many", {}, 1)],
-        "runs": 3000 if tier == "quick" else None,
+        "random": [("many", {}, 3), ("link", {}, 1)],
+        "runs": 4000 if tier == "quick" else None,
         "budget_s": 60 if tier == "quick" else 900,
         "batch": 100,
     }
@@ -276,6 +276,11 @@ def run_script(params, tape, detail=False):
 
 
 def run(scenario, params, tape, detail=False):
+    if scenario == "link":
+        # the wire monitor's C05 clauses on a live link against the reference NCP (engine E1)
+        from .. import e1
+
+        return e1.run(params, tape, detail=detail)
     if scenario == "many":
         params = dict(params, many=True)
     return run_script(params, tape, detail)
